@@ -258,6 +258,8 @@ def check_completeness_batched(ctx, P, insts_quick: int, insts_thorough: int, ch
             reach = rec["blocked"] is None and rec["done"] is True
             n_reach += int(reach)
             ctx.case((P.name, repr(ri), tuple(c)))
+            if hasattr(P, "extra_check"):
+                P.extra_check(ctx, ri, c, f)
             if (f.get("adm") == "1") != (rec["blocked"] is None):
                 ctx.disagreement(f"{P.name}: model and real mask disagree on a candidate solution",
                                  {"inst": ri, "solution": c, "model_admits": f.get("adm"), "real_blocked": rec["blocked"]})
